@@ -42,9 +42,10 @@ const map<string, double> PREFIX_FACTORS = {{"y", 1.0e-24}, {"z", 1.0e-21}, {"a"
 
 
 string createId() {
-    typedef boost::mt19937::result_type seed_type;
-    static boost::mt19937 ran(static_cast<seed_type>(std::time(0)));
-    static boost::uuids::basic_random_generator<boost::mt19937> gen(&ran);
+    // default constructed: draws from the operating system's entropy source
+    // (a wall-clock seed made processes started within the same second
+    // generate identical id sequences)
+    static boost::uuids::random_generator gen;
     boost::uuids::uuid u = gen();
     return boost::uuids::to_string(u);
 }
